@@ -24,6 +24,13 @@ type c01Sink struct {
 var c01Sinks = []c01Sink{
 	{"text", func(pre, post string) string { return "<p>" + pre + "{{ x }}" + post + "</p>" }, false},
 	{"vtext", func(pre, post string) string { return `<p v-text="x">old</p>` }, false},
+	// escaped sinks fed by a filter pipeline or a function call instead of a plain variable path (a different branch of every directive)
+	{"vtext-pipe", func(pre, post string) string { return `<p v-text="x | trim">old</p>` }, false},
+	{"vtext-call", func(pre, post string) string { return `<p v-text="trim(x)">old</p>` }, false},
+	{"vtext-default", func(pre, post string) string { return `<p v-text="nope | default(x)">old</p>` }, false},
+	{"text-pipe", func(pre, post string) string { return "<p>" + pre + "{{ x | trim }}" + post + "</p>" }, false},
+	{"attr-bound-pipe", func(pre, post string) string { return `<p :title="x | default('zz')">t</p>` }, true},
+	{"attr-interp-pipe", func(pre, post string) string { return `<p title="` + pre + `{{ nope | default(x) }}` + post + `">t</p>` }, true},
 	{"attr-interp", func(pre, post string) string { return `<p title="` + pre + `{{ x }}` + post + `">t</p>` }, true},
 	{"attr-bound", func(pre, post string) string { return `<p :title="x">t</p>` }, true},
 	{"attr-bound-interp", func(pre, post string) string { return `<p :title="` + pre + `{{ x }}` + post + `">t</p>` }, true},
